@@ -16,7 +16,7 @@ Extraction "model.ml"
   convolve_generic conv_spec_all row_fast row_spec
   rank_filter median_rank mean_filter template_match find2d samples_spec ssd_spec count_lt count_le
   labeled_sum labeled_max labeled_min region relabel is_same_labeling same_labeling_spec remove_regions
-  borders border borders_spec bbox_generic bbox_fast2 bbox_spec bbox_labeled_spec fullhistogram count_eq com_sums
+  borders border borders_spec bbox_generic bbox_fast2 bbox_spec bbox_labeled_spec bbox_labeled fullhistogram count_eq com_sums
   label label_pairs uf_label
   locmm locmm_spec regmm regmm_spec close_holes close_holes_spec hitmiss hitmiss_spec
   cwatershed flood_spec
